@@ -266,8 +266,9 @@ def extract():
         import tempfile
         import replay_parser
         with tempfile.NamedTemporaryFile(suffix='.wowsreplay') as f:
-            p = replay_parser.ReplayParser(f.name)
-            return bool(p._reader._dump_binary_data)
+            # the reader's own dump (which reports failures with print) must stay off whatever options the parser is given
+            return any(bool(replay_parser.ReplayParser(f.name, **kw)._reader._dump_binary_data)
+                       for kw in ({}, {'strict': True}, {'raw_data_output': os.path.join(tempfile.gettempdir(), 'no-such-dir', 'x.bin')}))
     attempt('parserDumpBinary', parser_dump_binary)
 
     return facts, broken
